@@ -10,7 +10,7 @@ element (Reverse: start states come from the final states)."""
 from vfacts import strip, walk, method_name, root_path, is_node
 
 RULE = 'PAIRFIELD'
-FLOOR = 6
+FLOOR = 4
 ANCHORS = ['ExplicitFiniteAutCore::Reverse', 'ExplicitFiniteAutCore::SetStateStart']
 A, B = 'startStates_', 'startStateToSymbols_'
 
